@@ -1,0 +1,75 @@
+//! Verification hooks (feature `verif`): read-only rendering of the complete dynamic state of a
+//! `Layout`. Additive only; nothing here is compiled without the feature.
+use super::*;
+use core::fmt::Write;
+
+impl<'a, const C: usize, const R: usize, T: 'a + Copy + std::fmt::Debug> Layout<'a, C, R, T> {
+    /// Writes a canonical textual rendering of every dynamic field of the layout into `out`.
+    /// Action references are rendered by content, never by address.
+    /// History ages are capped at `age_cap` and queue `since` values at `since_cap`.
+    pub fn verif_digest(&self, out: &mut String, age_cap: u16, since_cap: u16) {
+        let _ = write!(out, "dl={};st={:?};", self.default_layer, self.states);
+        let _ = write!(out, "w={:?};", self.waiting);
+        let _ = write!(out, "ew=[");
+        for w in self.extra_waiting.iter() {
+            let _ = write!(out, "{:?},", w);
+        }
+        let _ = write!(out, "];tde={:?};q=[", self.tap_dance_eager);
+        for q in self.queue.iter() {
+            let _ = write!(out, "({:?},{}),", q.event, q.since.min(since_cap));
+        }
+        let o = &self.oneshot;
+        let _ = write!(out, "];os=(");
+        for k in o.keys.iter() {
+            let _ = write!(out, "{:?},", k);
+        }
+        let _ = write!(out, "|");
+        for k in o.released_keys.iter() {
+            let _ = write!(out, "{:?},", k);
+        }
+        let _ = write!(out, "|");
+        for k in o.other_pressed_keys.iter() {
+            let _ = write!(out, "{:?},", k);
+        }
+        let _ = write!(
+            out,
+            "|{}|{:?}|{}|{}|{}|{});",
+            o.timeout,
+            o.end_config,
+            o.release_on_next_tick,
+            o.pause_input_processing_delay,
+            o.pause_input_processing_ticks,
+            o.ticks_to_ignore_events
+        );
+        let _ = write!(
+            out,
+            "lpt=({:?},{});as=[",
+            self.last_press_tracker.coord, self.last_press_tracker.tap_hold_timeout
+        );
+        for s in self.active_sequences.iter() {
+            let _ = write!(out, "{:?},", s);
+        }
+        let _ = write!(out, "];aq=[");
+        for a in self.action_queue.iter() {
+            let _ = write!(out, "{:?},", a);
+        }
+        let _ = write!(out, "];rpt={:?};hk=[", self.rpt_action);
+        for h in self.historical_keys.iter_hevents() {
+            let _ = write!(out, "({:?},{}),", h.event, h.ticks_since_occurrence.min(age_cap));
+        }
+        let _ = write!(out, "];hi=[");
+        for h in self.historical_inputs.iter_hevents() {
+            let _ = write!(out, "({:?},{}),", h.event, h.ticks_since_occurrence.min(age_cap));
+        }
+        let _ = write!(out, "];mkb={:?};", self.rpt_multikey_key_buffer.verif_contents());
+        match &self.chords_v2 {
+            None => {
+                let _ = write!(out, "cv2=None;");
+            }
+            Some(c) => {
+                let _ = write!(out, "cv2=");
+                c.verif_digest(out, since_cap);
+            }
+        }
+    }
+}
